@@ -23,16 +23,24 @@ ParamLists == UNION { [1..n -> PKs] : n \in 0..MaxParams }
 \* mockable programs: fn / mod (with mock_api), deps generic-ref / impl-ref / no_deps / concrete, sync/async; plus entraited traits
 \* stamp: the function is stamped out by a macro_rules! macro: the #[entrait(..)] attribute, `fn` and the name are written in
 \* the macro body, the parameter list and the body come from the macro's caller (two hygiene contexts)
-MProgs == { p \in [mode : {"fn", "mod", "trait"}, nfn : 1..3, deps : {"genref", "implref", "nodeps", "concrete"}, async : BOOLEAN, params : ParamLists, stamp : BOOLEAN, cfg : BOOLEAN, rev : BOOLEAN] :
+MProgs == { p \in [mode : {"fn", "mod", "trait"}, nfn : 1..3, deps : {"genref", "implref", "nodeps", "concrete"}, async : BOOLEAN, params : ParamLists, stamp : BOOLEAN, cfg : BOOLEAN, rev : BOOLEAN, featoff : BOOLEAN] :
             \* (no_deps only: with a dependency the generated `self` and the receiver end up in different hygiene contexts
             \*  and the expansion does not compile on any tree - an observation recorded in DESIGN.md, outside the statements)
             /\ (p.stamp => p.mode = "fn" /\ p.deps = "nodeps" /\ Len(p.params) >= 1)
+            \* featoff: entrait is used WITHOUT its `unimock` cargo feature; unimock support comes from the `unimock` option alone
+            \* (the invoking crate depends on unimock itself) - documented as the other way to enable it
+            /\ (p.featoff => ~p.stamp /\ ~p.cfg /\ ~p.rev /\ ~p.async /\ Len(p.params) <= 1)
             \* cfg: the functions of the module carry an ENABLED `#[cfg(..)]` (which the generator mirrors onto the generated methods)
             /\ (p.cfg => p.mode = "mod")
             \* rev: the module's functions are declared in descending name order (the positional unmock_with list must follow the trait)
             /\ (p.rev => p.mode = "mod")
             /\ (p.mode = "fn" => p.nfn = 1) /\ (p.mode = "mod" => p.nfn \in 2..3) /\ (p.mode = "trait" => p.nfn \in 1..2 /\ p.deps = "genref")
             /\ (p.deps = "concrete" => p.mode = "fn") }
+\* Level 2: the attribute the generator puts on the trait is always `::entrait::__unimock::unimock(prefix = ::entrait::__unimock, ..)`
+\* (attributes.rs UnimockAttrParams), and `::entrait::__unimock` exists only with the cargo feature (src/lib.rs): without it the
+\* mock cannot be compiled.  A named deviation from Level 1 (the mock API must be reachable whenever support is generated).
+Compiles(p) == ~p.featoff
+Class(p) == IF p.featoff THEN "unimock-option-without-feature" ELSE ""
 Scens(p) == IF p.mode = "trait" \/ p.deps = "concrete" THEN {"mock", "partial-panics"} ELSE {"mock", "partial", "impl"}
 
 UnmockEntry(p, i) ==
@@ -84,5 +92,5 @@ Refines == viol = {}
 Outcomes == pc = "done" => outcome = (CASE s = "mock" -> "answer" [] s = "partial-panics" -> "panic" [] OTHER -> "real")
 
 ASSUME DumpCases => ndJsonSerialize(IOEnv.OUT, SetToSeq({ [prog |-> q, leaves |-> ArgLeaves(q.params), scens |-> SetToSeq(Scens(q)),
-        unmock |-> [i \in 1..q.nfn |-> UnmockEntry(q, i).kind]] : q \in MProgs }))
+        unmock |-> [i \in 1..q.nfn |-> UnmockEntry(q, i).kind], compiles |-> Compiles(q), cls |-> Class(q)] : q \in MProgs }))
 =============================================================================
